@@ -9,7 +9,7 @@ ALL = ['C%02d' % i for i in range(1, 21)]
 
 CLAIMS = {
     'C01': {
-        'text': "Engine soundness (C04.sound) and splitter theorems (C02) apply to pformatM = render . layout . toDoc; C01.sorted_perm (key sorting only permutes entries), insertion_order. The hand-written model of every built-in printer (PP/Model/Values.lean) is tied to /repo by exact comparison of the annotated SDoc stream and text of python_to_sdocs on all small value trees over an adversarial leaf alphabet at width=ribbon=1..12 and on seeded random trees x 10-18 widths x ribbons x indents x sort flags; the oracle eval('(' + text + ')') with exact type / NaN / signed-zero / order comparison runs on every implementation output.",
+        'text': "Lean theorems C01.canon_reads_back (the canonical tokens of every value of the built-in literal types read back, by the reader of Spec/Reader.lean, to exactly that value: container types, element order, insertion order of dicts, string contents, literal texts) and C01.output_reads_back (chained with C03.output_tokens: what pformat prints has, up to literal splitting, such a token sequence); the reader and the token spec are tied to CPython eval / tokenize on every run. Engine soundness (C04.sound) and splitter theorems (C02) apply to pformatM = render . layout . toDoc; C01.sorted_perm (key sorting only permutes entries), insertion_order. The hand-written model of every built-in printer (PP/Model/Values.lean) is tied to /repo by exact comparison of the annotated SDoc stream and text of python_to_sdocs on all small value trees over an adversarial leaf alphabet at width=ribbon=1..12 and on seeded random trees x 10-18 widths x ribbons x indents x sort flags; the oracle eval('(' + text + ')') with exact type / NaN / signed-zero / order comparison runs on every implementation output.",
         'note': 'value-level end-to-end theorem (reader . pformatM = id / token invariance) is not proved yet: the claim rests on C04.sound_pformat (unconditional) for the engine, C02 for the splitter, the listed syntactic lemmas about the printer model, the model=code correspondence on SDoc streams, and the CPython oracle run on every implementation output',
         'technique': 'Lean 4 proof (engine + splitter) + differential correspondence of the printer model + eval oracle',
         'design_ref': 'DESIGN.md section 5, C01',
@@ -27,19 +27,19 @@ CLAIMS = {
         'design_ref': 'DESIGN.md section 5, C08',
     },
     'C09': {
-        'text': 'Correspondence of the comment machinery (commentdoc, sequence_of_docs, build_fncall, dict pairs, top level) on comment/trailing_comment wrappers at every single node of small trees and random nodes of random trees with adversarial texts; oracle: eval equals the uncommented value, same ast across layouts, comment words preserved (tokenize). C09.commentdoc_lines, empty_comment_ignored. Known finding K4 (trailing comments on values that cannot hold one are dropped). F4, F5 repaired.',
+        'text': 'Lean theorem C09.comment_inert: comment() annotations at any nodes do not change a single code token of the output at any width / ribbon / indent / max_seq_len (hypotheses = the listed findings K5, K8); C09.trailing_adds_comma states the exact effect of a trailing comment. Correspondence of the comment machinery (commentdoc, sequence_of_docs, build_fncall, dict pairs, top level) on comment/trailing_comment wrappers at every single node of small trees and random nodes of random trees with adversarial texts; oracle: eval equals the uncommented value, same ast across layouts, comment words preserved (tokenize). C09.commentdoc_lines, empty_comment_ignored. Known finding K4 (trailing comments on values that cannot hold one are dropped). F4, F5 repaired.',
         'note': 'value-level end-to-end theorem (reader . pformatM = id / token invariance) is not proved yet: the claim rests on C04.sound_pformat (unconditional) for the engine, C02 for the splitter, the listed syntactic lemmas about the printer model, the model=code correspondence on SDoc streams, and the CPython oracle run on every implementation output',
         'technique': 'differential correspondence + tokenize/eval oracle; Lean lemmas on commentdoc',
         'design_ref': 'DESIGN.md section 5, C09',
     },
     'C10': {
-        'text': 'C10.no_limit (None truncates nothing, attaches no comment), large_limit, truncation_text (the comment states len - N). Correspondence and oracle on container trees x max_seq_len in {1..longest+1, None} x widths: eval == first-N truncation at every level, one comment per truncated container with the exact count, None == large limit. F8 repaired.',
+        'text': 'Lean theorems Limits.limits_tokens (printing with max_seq_len = N, depth = d and any sort flag emits the tokens of printing, without limits, the shown value: first N elements of every container, a trailing comment exactly where something was dropped, placeholders exactly at the depth cut) and Limits.limit_that_does_not_bite (a limit at least as large as every container changes nothing). C10.no_limit (None truncates nothing, attaches no comment), large_limit, truncation_text (the comment states len - N). Correspondence and oracle on container trees x max_seq_len in {1..longest+1, None} x widths: eval == first-N truncation at every level, one comment per truncated container with the exact count, None == large limit. F8 repaired.',
         'note': 'value-level end-to-end theorem (reader . pformatM = id / token invariance) is not proved yet: the claim rests on C04.sound_pformat (unconditional) for the engine, C02 for the splitter, the listed syntactic lemmas about the printer model, the model=code correspondence on SDoc streams, and the CPython oracle run on every implementation output',
         'technique': 'Lean 4 lemmas on the truncation arithmetic + differential correspondence + eval oracle',
         'design_ref': 'DESIGN.md section 5, C10',
     },
     'C11': {
-        'text': 'C11.depth_zero_placeholder, unlimited_never_zero. Correspondence and oracle on container trees with unique leaves x depth in {0..height+2, None}: exactly the leaves nested in fewer than depth containers appear; depth > height == None. Known findings K2 (None/bool/Ellipsis leaves), K5 (str dict keys at the cut).',
+        'text': 'Lean theorems Limits.limits_tokens / shown_canon (the output for depth d is the unlimited output of the value with exactly the nodes at the cut replaced by placeholders of their own type; K2 / K5 visible in the definition of shown) and Limits.limit_that_does_not_bite (depth above the levels of the value = depth None). C11.depth_zero_placeholder, unlimited_never_zero. Correspondence and oracle on container trees with unique leaves x depth in {0..height+2, None}: exactly the leaves nested in fewer than depth containers appear; depth > height == None. Known findings K2 (None/bool/Ellipsis leaves), K5 (str dict keys at the cut).',
         'note': 'value-level end-to-end theorem (reader . pformatM = id / token invariance) is not proved yet: the claim rests on C04.sound_pformat (unconditional) for the engine, C02 for the splitter, the listed syntactic lemmas about the printer model, the model=code correspondence on SDoc streams, and the CPython oracle run on every implementation output',
         'technique': 'Lean 4 lemmas + differential correspondence + leaf-visibility oracle',
         'design_ref': 'DESIGN.md section 5, C11',
@@ -99,7 +99,7 @@ CLAIMS = {
         'design_ref': 'DESIGN.md section 5, C14',
     },
     'C12': {
-        'text': "Termination: every function of the model is total (Lean accepts fitsFast, fitsSmart, run, PyStr.go, replaceAll, Graph.unfold only with their termination proofs; C02.budget_positive gives the splitter its positive budget). Work: C12.machine_quadratic — for every document, width, ribbon and both strategies the layout machine and all lookaheads it starts cost at most (size + 2)^2 loop iterations, where `size` counts only the larger alternative of every flat_choice (so documents that share a sub-document between alternatives, as all comment printers do, are measured without duplication); fits_linear / fits_smart_linear (one lookahead <= size + 1); Doc.size_normalize (normalisation never exceeds the pre-paid size); string_pieces_linear; build_linear_partial (without commented dict values: at most one printer invocation per node, incl. comments at every level elsewhere); commented_dict_exponential (known finding K3: 2^n invocations). Runtime part (partial): sys.monitoring LINE events inside the package on 19 families + random wrapper recipes at n, 2n, 4n (8n): doubling ratio <= 9, step budget, and steps <= 400 x model cost (printer invocations + actual machine and lookahead iterations computed by the model).",
+        'text': "Lean theorems C12.doc_linear and C12.layout_quadratic_in_value: the document of any well-formed value is linear in its weight (nodes, string and comment lengths) and the layout work at most quadratic in it, at every setting. Termination: every function of the model is total (Lean accepts fitsFast, fitsSmart, run, PyStr.go, replaceAll, Graph.unfold only with their termination proofs; C02.budget_positive gives the splitter its positive budget). Work: C12.machine_quadratic — for every document, width, ribbon and both strategies the layout machine and all lookaheads it starts cost at most (size + 2)^2 loop iterations, where `size` counts only the larger alternative of every flat_choice (so documents that share a sub-document between alternatives, as all comment printers do, are measured without duplication); fits_linear / fits_smart_linear (one lookahead <= size + 1); Doc.size_normalize (normalisation never exceeds the pre-paid size); string_pieces_linear; build_linear_partial (without commented dict values: at most one printer invocation per node, incl. comments at every level elsewhere); commented_dict_exponential (known finding K3: 2^n invocations). Runtime part (partial): sys.monitoring LINE events inside the package on 19 families + random wrapper recipes at n, 2n, 4n (8n): doubling ratio <= 9, step budget, and steps <= 400 x model cost (printer invocations + actual machine and lookahead iterations computed by the model).",
         'note': "partial: CPython's step count is tied to the model by measurement (calibrated constant, 4x margin); document size linear in value size is proved for printer invocations only, not yet for the document measure",
         'technique': 'Lean 4 proof (termination measures; quadratic bound by induction on the machine with a branch-max size measure) + step-count measurement with cost refinement',
         'design_ref': 'DESIGN.md section 5, C12',
@@ -111,7 +111,7 @@ CLAIMS = {
         'design_ref': 'DESIGN.md section 5, C07',
     },
     'C04': {
-        'text': "Lean theorems C04.sound / sound_plain / sound_str / sound_pformat (the last three without hypothesis: Pr.evalStr_bounded proves the evaluator-size hypothesis for pretty_str's evaluator; the stack machine's output is a rendering of the document in the reference semantics Lay, for every document, width, ribbon and both strategies), ann_balanced (push/pop well bracketed), render_trim (the renderer only trims trailing whitespace), with lay_normalize (Lay closed under normalisation). The model is tied to /repo by exact comparison of SDoc streams and rendered text on all documents <= 4 (thorough: 5) nodes x 96 configurations plus seeded random documents. The forcing clause for bare hardline is known finding K1.",
+        'text': "The oracle is proved: checkLay_sound / checkLay_iff (the matcher accepts exactly the renderings in Lay on documents without string contextuals). Lean theorems C04.sound / sound_plain / sound_str / sound_pformat (the last three without hypothesis: Pr.evalStr_bounded proves the evaluator-size hypothesis for pretty_str's evaluator; the stack machine's output is a rendering of the document in the reference semantics Lay, for every document, width, ribbon and both strategies), ann_balanced (push/pop well bracketed), render_trim (the renderer only trims trailing whitespace), with lay_normalize (Lay closed under normalisation). The model is tied to /repo by exact comparison of SDoc streams and rendered text on all documents <= 4 (thorough: 5) nodes x 96 configurations plus seeded random documents. The forcing clause for bare hardline is known finding K1.",
         'note': "trusted: Lean kernel; model = code only on the explored inputs; ribbon fractions restricted to float-exact ones; FlatChoice lazy normalisation modelled as a pure function",
         'technique': 'Lean 4 proof (soundness w.r.t. inductive reference semantics) + differential correspondence',
         'design_ref': 'DESIGN.md section 5, C04',
